@@ -16,6 +16,12 @@
   comparison with the harness fails.  The routes of mode `m` use no regular expression, so the
   engine is never consulted.  Mode `x` keeps the simple rule `accKeys` (only the harness's
   program-versus-flat comparison is meaningful there).
+
+  `S headers <k:v,…|->` (mode `x` only; right after a `route` / `verb` / `any` / `routes` line of the same block):
+  `.Headers(k, v, …)` called on the `*Route` that declaration returned.  Its flat reading — computed and executed by the
+  harness — is the same call on the `*Route` of every single-method registration the declaration stands for.  `Q` lines
+  with a fifth field carry request header fields (mode `x` only).  As for everything in mode `x` the documented answer
+  is the constant one: the program and its flat reading agree (`x eq`); here the lines are only checked for their form.
 -/
 import Flamego.Model.Dsl
 import Flamego.Model.DslApp
@@ -81,6 +87,18 @@ def parseLine : List String → Option PLine
   | ["S", "panic"] => some (.stmt .panic)
   | _ => none
 
+/-- "-" or a comma list of `<hex>:<hex>` -/
+def pairsOk (s : String) : Bool :=
+  s == "-" || (s.splitOn ",").all fun it =>
+    match it.splitOn ":" with
+    | [k, v] => (Bytes.ofHex k).isSome && (Bytes.ofHex v).isSome
+    | _ => false
+
+/-- the declarations that return a `*Route` -/
+def returnsRoute : Stmt → Bool
+  | .route .. | .verb .. | .any .. | .routes .. => true
+  | _ => false
+
 /-- an open block: `none` = the program itself; body in reverse order -/
 structure Frame where
   opener : Option (Option (Bytes × List Nat)) := none   -- some none = recover, some (some g) = group
@@ -144,6 +162,13 @@ def session (E : Engine) (args : List String) (lines : List (List String)) : Lis
       match l with
       | "S" :: _ =>
         if s.res.isSome then "bad-op" :: go s rest
+        else if l.length == 3 && l[1]? == some "headers" then
+          -- a Headers() call on what the last declaration of the open block returned (mode x only)
+          let lastOk := match s.stack with
+            | f :: _ => (f.body.head?.map returnsRoute).getD false
+            | [] => false
+          if !model && pairsOk (l[2]?.getD "") && lastOk then "s" :: go s rest
+          else "bad-op" :: go { s with bad := true } rest
         else match parseLine l, s.stack with
           | some (.stmt st), f :: fs => "s" :: go { s with stack := { f with body := st :: f.body } :: fs } rest
           | some (.openGroup p hs), fs => "s" :: go { s with stack := { opener := some (some (p, hs)) } :: fs } rest
@@ -189,6 +214,13 @@ def session (E : Engine) (args : List String) (lines : List (List String)) : Lis
                 (if appAns == dslAns then s!"{appAns} eq" else s!"{appAns} eq dsl={dslAns}") :: go s rest
               else "x eq" :: go s rest
             | _, _ => "bad-op" :: go s rest)
+         | _, _ => "bad-program" :: go s rest)
+      | ["Q", _, route, req, hdrs] =>
+        if model then "bad-op" :: go s rest
+        else (match s.bad, s.res with
+         | false, some _ =>
+           if (Bytes.ofHex route).isSome && (Bytes.ofHex req).isSome && pairsOk hdrs then "x eq" :: go s rest
+           else "bad-op" :: go s rest
          | _, _ => "bad-program" :: go s rest)
       | _ => "bad-op" :: go s rest
   "new" :: go {} lines
